@@ -14,7 +14,7 @@ import (
 func init() {
 	Register(&Property{
 		ID: "C18", Level: "exploration",
-		Rule: "E1/E2: 7 methods x {considered = known, subset} x valuesRange {observed, declared} x start state {root, after each core bias, after 1-2 earlier concealments/mixings, after two omissions (one criterion left)} x " +
+		Rule: "E1/E2: 7 methods x {considered = known, subset} x valuesRange {observed, declared, observed with one strictly negative criterion} x start state {root, after each core bias, after 1-2 earlier concealments/mixings, after two omissions (one criterion left)} x " +
 			"concealment {3 reference strategies (importance 0/0.5/1), newCriterionScaling {1,0.5,2,-1}, bounding {off, 1, non-negative, 0.5+non-negative}} / mixing {mixingRatio {0,0.25,0.5,1}, 3 strategies} " +
 			"x generator {constant scripts g in {0,0.25,0.5,0.75,1-ulp}, real seed}. One real Apply per case. Oracle: exactly one new gain criterion with an unused id appended, a value for every known alternative, " +
 			"old values untouched, range = reference criterion's range scaled about its centre (existential over the existing criteria; exact reference criterion on root states), exact values under constant scripts, " +
@@ -234,13 +234,9 @@ func c18Concealment(c *Case, req M, props map[string]interface{}, t trans, scrip
 				vs = append(vs, viol(c, "C18/concealment/value", "alternative %s: concealed value %v, expected bound(min'+g*(max'-min')) = %v (g=%v range [%v,%v])", a.ID, v, want, g, rlo, rhi))
 			}
 		} else {
-			lo, hi := math.Min(rlo, rhi), math.Max(rlo, rhi)
-			if nonneg && hi < 0 {
-				hi = 0
-			}
-			if nonneg && lo < 0 {
-				lo = 0
-			}
+			// raw values lie in the scaled reference range; bounding is monotone, so the handed-on value lies between the
+			// bounded ends of that range (raise to 0 first, then clip — the clip may bring it below 0 again)
+			lo, hi := boundRef(math.Min(rlo, rhi), rlo, rhi, bscaling, nonneg), boundRef(math.Max(rlo, rhi), rlo, rhi, bscaling, nonneg)
 			if v < lo-1e-9 || v > hi+1e-9 {
 				vs = append(vs, viol(c, "C18/concealment/value-outside-range", "alternative %s: concealed value %v outside the scaled reference range [%v,%v]", a.ID, v, lo, hi))
 			}
@@ -429,9 +425,15 @@ func c18Run(s *Shard) {
 	sampled := false
 	for _, method := range allMethods {
 		for _, subset := range []bool{false, true} {
-			for _, ranges := range []bool{false, true} {
-				root := rootRequest(method, subset, ranges)
-				for _, pre := range prefixes {
+			for variant := 0; variant < 3; variant++ { // observed range, declared range, c1 strictly negative (observed)
+				root := rootRequest(method, subset, variant == 1)
+				if variant == 2 {
+					root = negativeVariant(root)
+				}
+				for pi, pre := range prefixes {
+					if variant == 2 && pi > 0 && pi != 5 && pi != 13 {
+						continue
+					}
 					if !s.Take() {
 						continue
 					}
